@@ -2,7 +2,8 @@
    followed by a sequence of commands; the output is the result of every command and
    the final override slot. *)
 From Coq Require Import String.
-Require Import OV.Base.Bytes OV.Base.Py OV.Base.PyInt OV.Base.Str OV.Base.IO.
+From Coq Require Import SpecFloat.
+Require Import OV.Base.Bytes OV.Base.Py OV.Base.PyInt OV.Base.Str OV.Base.IO OV.Base.PyFloat.
 Require Import OV.Model.C12_Calendar OV.Model.C12_Prim OV.Model.C12 OV.Model.C12_Iso.
 From Coq Require Extraction ExtrOcamlBasic.
 Open Scope Z_scope.
@@ -63,6 +64,16 @@ Definition p_reszone (args : list bytes) : res zone * list bytes :=
   if is_op "E" k then let '(e, r') := take1 r in (Exn (p_exn e), r')
   else let '(o, r') := take1 r in let '(n, r'') := take1 r' in (Ok (mkZone (fun _ => arg_Z o) (p_optstr n)), r'').
 
+(* a Python number: "i" z | "f" mantissa exponent | "finf" | "f-inf" | "fnan" *)
+Definition p_num (args : list bytes) : pynum * list bytes :=
+  let '(k, r) := take1 args in
+  if is_op "i" k then let '(z, r') := take1 r in (PInt (arg_Z z), r')
+  else if is_op "f" k then let '(m, r') := take1 r in let '(e, r'') := take1 r' in
+    (PFloat (if arg_Z m =? 0 then S754_zero (is_op "-0" m) else f_normalize (arg_Z m) (arg_Z e)), r'')
+  else if is_op "finf" k then (PFloat (S754_infinity false), r)
+  else if is_op "f-inf" k then (PFloat (S754_infinity true), r)
+  else (PFloat S754_nan, r).
+
 Definition o_unit (r : res unit) : bytes := match r with Ok _ => lit "None" | Exn e => out_exn e end.
 
 Fixpoint o_fexp (e : fexp) : bytes :=
@@ -102,16 +113,26 @@ Definition step (args : list bytes) (w : world) : bytes * world * list bytes :=
   else if is_op "adv" c then
     let '(d, r) := take1 r in let '(x, w') := advance_time_delta (arg_Z d) w in (o_unit x, w', r)
   else if is_op "advs" c then
-    let '(d, r) := take1 r in let '(x, w') := advance_time_seconds (arg_Z d) w in (o_unit x, w', r)
+    let '(d, r) := p_num r in let '(x, w') := advance_time_seconds d w in (o_unit x, w', r)
+  else if is_op "fx_adv" c then
+    let '(d, r) := take1 r in let '(x, w') := fixture_advance_time_delta (arg_Z d) w in (o_unit x, w', r)
+  else if is_op "fx_advs" c then
+    let '(d, r) := p_num r in let '(x, w') := fixture_advance_time_seconds d w in (o_unit x, w', r)
+  else if is_op "fx_set" c then
+    let '(o, r) := p_override r in let '(x, w') := fixture_setUp o w in (o_unit x, w', r)
+  else if is_op "fx_cleanup" c then
+    let '(x, w') := fixture_cleanUp w in (o_unit x, w', r)
+  else if is_op "td" c then
+    let '(d, r) := p_num r in (out_res out_Z (td_of_seconds d), w, r)
   else if is_op "older" c then
-    let '(t, p, r) := p_targ r in let '(s, r) := take1 r in
-    let '(x, w') := is_older_than t (arg_Z s) (with_libs w p no_zone) in (out_res out_bool x, w', r)
+    let '(t, p, r) := p_targ r in let '(s, r) := p_num r in
+    let '(x, w') := is_older_than t s (with_libs w p no_zone) in (out_res out_bool x, w', r)
   else if is_op "newer" c then
-    let '(t, p, r) := p_targ r in let '(s, r) := take1 r in
-    let '(x, w') := is_newer_than t (arg_Z s) (with_libs w p no_zone) in (out_res out_bool x, w', r)
+    let '(t, p, r) := p_targ r in let '(s, r) := p_num r in
+    let '(x, w') := is_newer_than t s (with_libs w p no_zone) in (out_res out_bool x, w', r)
   else if is_op "soon" c then
-    let '(t, p, r) := p_targ r in let '(s, r) := take1 r in
-    let '(x, w') := is_soon t (arg_Z s) (with_libs w p no_zone) in (out_res out_bool x, w', r)
+    let '(t, p, r) := p_targ r in let '(s, r) := p_num r in
+    let '(x, w') := is_soon t s (with_libs w p no_zone) in (out_res out_bool x, w', r)
   else if is_op "parse" c then
     let '(t, p, r) := p_targ r in
     let '(x, w') := targ_to_dt t (with_libs w p no_zone) in (out_res o_dt x, w', r)
